@@ -77,6 +77,41 @@ class ScriptedRandom(object):
         raise RngProtocol("random.%s is not part of the draw protocol (sample, randrange, random)" % name)
 
 
+class GenRandom(object):
+    """scripted RNG for a whole generation: one ScriptedRandom record per strategy call; a call starts with sample()"""
+    def __init__(self):
+        self.load([])
+
+    def load(self, scripts):
+        self.recs = []
+        for (don, n, draws) in scripts:
+            r = ScriptedRandom()
+            r.load(don, n, draws)
+            self.recs.append(r)
+        self.idx = -1
+
+    def sample(self, population, k, **kw):
+        self.idx += 1
+        if self.idx >= len(self.recs):
+            raise RngProtocol("more strategy calls (sample) than candidates")
+        return self.recs[self.idx].sample(population, k, **kw)
+
+    def randrange(self, *args, **kw):
+        if self.idx < 0:
+            raise RngProtocol("randrange before sample")
+        return self.recs[self.idx].randrange(*args, **kw)
+
+    def random(self):
+        if self.idx < 0:
+            raise RngProtocol("random before sample")
+        return self.recs[self.idx].random()
+
+    def __getattr__(self, name):
+        if name.startswith("__"):
+            raise AttributeError(name)
+        raise RngProtocol("random.%s is not part of the draw protocol (sample, randrange, random)" % name)
+
+
 # ------------------------------------------------------------------------------------------------ TLC runs
 def _plan(a):
     """(tag, module, cfg, kwargs, expected_violation) for every TLC run of this tier"""
@@ -90,6 +125,7 @@ def _plan(a):
                      {"workers": max(1, min(4, a.jobs // 4)), "heap": "6g"}, None))
     else:
         runs.append(("strategy", "de/MC_Strategy", "MC_Strategy_q6.cfg", {}, None))
+    runs.append(("strategy-gen", "de/MC_Strategy", "MC_Strategy_gen.cfg", {}, None))
     for w in ("AsIsAtLeastOneMutated", "PubBinNeverScattered", "NeverFullRun"):
         runs.append(("witness", "de/MC_Strategy", "MC_Strategy_wit_%s.cfg" % w, {}, w))
     runs.append(("strategy-mc", "de/MC_Strategy", "MC_Strategy_asis_runs.cfg", {}, None))
@@ -137,6 +173,7 @@ class StrategyReplay(object):
         self.solvers = {}
         self.corrupt = corrupt          # self-test: falsify one expected trial component
         self.ncases = 0
+        self.ngen = 0
         self.masks = {}                 # (s, d, n) -> set of masks the specification produced (coverage of Bin patterns)
         self.dev = {}
 
@@ -178,10 +215,11 @@ class StrategyReplay(object):
         fn = getattr(self.S, s)
         draws = [u / Q for u in st["u"]]
         exp_t = [v / scale for v in st["t"]]
+        asis_t = [v / scale for v in st["at"]]
         if self.corrupt and self.ncases == 17:
             exp_t[0] += 1.0
+            asis_t[0] += 1.0
         self.ncases += 1
-        asis_t = [v / scale for v in st["at"]]
         w = st["w"]
         key = (np_, d, s, c, f, tuple(st["don"]), st["n"], tuple(st["u"]))
         self.masks.setdefault((s, d, st["n"]), set()).add(tuple(w))
@@ -212,52 +250,132 @@ class StrategyReplay(object):
             ck.case(nontrivial=0 < len(w) < d, key=key)
             got = list(inst.trialSolution[c]) if kind == "DE2" else list(inst.trialSolution)
             got = [float(v) for v in got]
-            problems = []
-            what = None
-            if err:
-                problems.append(err)
-                what = "rng-protocol" if err.startswith("rng-protocol") else "raised"
-            else:
-                pool_ok = rng.pool is not None and sorted(rng.pool) == [i for i in range(np_) if i != c] and rng.k == ndon[s]
-                if not pool_ok:
-                    problems.append("sample(pool=%s, k=%s): the specification draws %d distinct donors from all members but %d"
-                                    % (rng.pool, rng.k, ndon[s], c))
-                    what = "donor-pool"
-                elif rng.rr_args != (d,):
-                    problems.append("randrange%s, specification: randrange(%d)" % (rng.rr_args, d))
-                    what = "start-index-draw"
-                elif P != P0 or list(B) != B0:
-                    problems.append("the strategy changed the population or bestSolution")
-                    what = "side-effect"
+            side = None
+            if not err:
+                if P != P0 or list(B) != B0:
+                    side = "the strategy changed the population or bestSolution"
                 elif kind == "DE2" and any(r != [SENT] * d for i, r in enumerate(inst.trialSolution) if i != c):
-                    problems.append("the strategy wrote a trial row of another candidate")
-                    what = "side-effect"
-            if not problems:
-                ok_pub = self.same(got, rng, exp_t, st["used"], st["sl"])
-                if ok_pub:
-                    continue
-                ok_asis = self.same(got, rng, asis_t, st["aused"], st["asl"])
-                if ok_asis:
-                    # a named deviation explains it: buffered, reported by flush() with the most telling case first
-                    dev = "DevBinIsExp" if s in DEV_BIN_IS_EXP else "DevExpEmptyRun"
-                    score = (got != exp_t) + (len(st["aw"]) == 0 and dev == "DevExpEmptyRun") + \
-                            (dev == "DevBinIsExp" and d == 3 and len(w) == 2 and (st["n"] + 1) % d not in w) + (kind == "DE")
-                    e = self.dev.setdefault((dev, s), [0, {}])
-                    e[0] += 1
-                    if score > e[1].get(kind, (-1,))[0]:
-                        e[1][kind] = (score, self.detail(st, kind, CR, P0, B0, draws, exp_t, got, rng, dev),
-                                      self.explain(dev, s, st, kind, CR, draws, exp_t, got, rng))
-                    continue
-                if got != exp_t and got != asis_t:
-                    what = "trial"
-                    problems.append("trial vector")
-                else:
-                    what = "draws"
-                    problems.append("random() calls / order")
-            ck.violation("strategy:%s:%s" % (s, what), self.detail(st, kind, CR, P0, B0, draws, exp_t, got, rng, "; ".join(problems)),
-                         "%s on %s NP=%d nDim=%d c=%d F=%s CR=%s donors=%s n=%d draws=%s: %s; specification trial %s (%d random() calls), "
-                         "mystic trial %s (calls %r)" % (s, kind, np_, d, c, f / 2.0, CR, st["don"], st["n"], draws, "; ".join(problems),
-                                                        exp_t, st["used"], got, rng.log))
+                    side = "the strategy wrote a trial row of another candidate"
+            self.verdict("strategy", st, kind, CR, P0, B0, draws, exp_t, asis_t, got, rng, err, side, ndon)
+
+    def verdict(self, prefix, st, kind, CR, P0, B0, draws, exp_t, asis_t, got, rng, err, side, ndon):
+        """compare one real strategy call (trial `got`, call record `rng`) with the specification's case `st`"""
+        ck = self.ck
+        np_, d, s, c, f, w = st["np"], st["d"], st["s"], st["c"], st["f"], st["w"]
+        problems = []
+        what = None
+        if err:
+            problems.append(err)
+            what = "rng-protocol" if err.startswith("rng-protocol") else "raised"
+        else:
+            pool_ok = rng.pool is not None and sorted(rng.pool) == [i for i in range(np_) if i != c] and rng.k == ndon[s]
+            if not pool_ok:
+                problems.append("sample(pool=%s, k=%s): the specification draws %d distinct donors from all members but %d"
+                                % (rng.pool, rng.k, ndon[s], c))
+                what = "donor-pool"
+            elif rng.rr_args != (d,):
+                problems.append("randrange%s, specification: randrange(%d)" % (rng.rr_args, d))
+                what = "start-index-draw"
+            elif side:
+                problems.append(side)
+                what = "side-effect"
+        if not problems:
+            if self.same(got, rng, exp_t, st["used"], st["sl"]):
+                return True
+            if self.same(got, rng, asis_t, st["aused"], st["asl"]):
+                # a named deviation explains it: buffered, reported by flush() with the most telling case first
+                dev = "DevBinIsExp" if s in DEV_BIN_IS_EXP else "DevExpEmptyRun"
+                score = (got != exp_t) + (len(st["aw"]) == 0 and dev == "DevExpEmptyRun") + \
+                        (dev == "DevBinIsExp" and d == 3 and len(w) == 2 and (st["n"] + 1) % d not in w) + (kind == "DE")
+                e = self.dev.setdefault((dev, s), [0, {}])
+                e[0] += 1
+                if score > e[1].get(kind, (-1,))[0]:
+                    e[1][kind] = (score, self.detail(st, kind, CR, P0, B0, draws, exp_t, got, rng, dev),
+                                  self.explain(dev, s, st, kind, CR, draws, exp_t, got, rng))
+                return False
+            if got != exp_t and got != asis_t:
+                what = "trial"
+                problems.append("trial vector")
+            else:
+                what = "draws"
+                problems.append("random() calls / order")
+        ck.violation("%s:%s:%s" % (prefix, s, what), self.detail(st, kind, CR, P0, B0, draws, exp_t, got, rng, "; ".join(problems)),
+                     "%s on %s NP=%d nDim=%d c=%d F=%s CR=%s donors=%s n=%d draws=%s: %s; specification trial %s (%d random() calls), "
+                     "mystic trial %s (calls %r)" % (s, kind, np_, d, c, f / 2.0, CR, st["don"], st["n"], draws, "; ".join(problems),
+                                                    exp_t, st["used"], got, rng.log))
+        return False
+
+    # ---- whole generations: the same cases, but the strategy is called by the real solver's Step ----------------
+    def run_generations(self, res):
+        """cases emitted with best = member 0 (MC_Strategy_gen): one case per candidate makes one generation of a real
+        solver whose members all cost 0 and every other point +inf (so nothing is accepted, the population stays the
+        specification's, best = member 0).  Step(strategy=<function>, CrossProbability=CR, ScalingFactor=F) must hand
+        the cost function, candidate by candidate, exactly the specification's trial vectors."""
+        ck, S = self.ck, self.S
+        hdr = res.printed[0]
+        Q, scale, ndon = float(hdr["Q"]), float(hdr["scale"]), hdr["ndonors"]
+        CR = hdr["CRq"] / Q
+        inits, groups = {}, {}
+        for st in res.printed[1:]:
+            if st["k"] == "init":
+                inits[(st["np"], st["d"])] = ([[v / scale for v in m] for m in st["pop"]], [v / scale for v in st["best"]])
+            else:
+                groups.setdefault((st["np"], st["d"], st["s"], st["f"]), {}).setdefault(st["c"], []).append(st)
+        saved = S.random
+        gr = GenRandom()
+        S.random = gr
+        try:
+            ngen = 0
+            for (np_, d, s, f), byc in sorted(groups.items()):
+                P0, B0 = inits[(np_, d)]
+                if B0 != P0[0] or sorted(byc) != list(range(np_)):
+                    raise RuntimeError("generation cases need best = member 0 and every candidate")
+                members = set(tuple(m) for m in P0)
+                for g in range(max(len(v) for v in byc.values())):
+                    cases = [byc[c][g % len(byc[c])] for c in range(np_)]
+                    ngen += 1
+                    kind = "DE" if ngen % 2 else "DE2"
+                    cls = self.D.DifferentialEvolutionSolver if kind == "DE" else self.D.DifferentialEvolutionSolver2
+                    inst = cls(d, np_)
+                    inst.population = [m[:] for m in P0]
+                    inst.SetTermination(never)
+                    seen = []
+
+                    def cost(x):
+                        x = [float(v) for v in x]
+                        seen.append(x)
+                        return 0.0 if tuple(x) in members else float("inf")
+                    gr.load([(st["don"], st["n"], [u / Q for u in st["u"]]) for st in cases])
+                    err = None
+                    try:
+                        inst.Step(cost)
+                        del seen[:]
+                        msg = inst.Step(strategy=getattr(S, s), CrossProbability=CR, ScalingFactor=f / 2.0)
+                        if msg is not None:
+                            err = "raised: Step stopped with %r" % (msg,)
+                    except RngProtocol as ex:
+                        err = "rng-protocol: %s" % ex
+                    except Exception as ex:
+                        err = "raised %r" % (ex,)
+                    side = None
+                    if not err:
+                        if len(seen) != np_ or gr.idx != np_ - 1:
+                            err = "raised: %d evaluations and %d strategy calls in one generation of %d candidates" % (len(seen), gr.idx + 1, np_)
+                        elif [list(map(float, m)) for m in inst.population] != P0 or list(map(float, inst.bestSolution)) != B0:
+                            side = "the population or the best changed although every trial costs +inf"
+                    for c, st in enumerate(cases):
+                        ck.case(nontrivial=0 < len(st["w"]) < d, key=("gen", kind, np_, d, s, c, f, tuple(st["don"]), st["n"], tuple(st["u"])))
+                        got = seen[c] if c < len(seen) else []
+                        rec = gr.recs[c] if c < len(gr.recs) else ScriptedRandom()
+                        draws = [u / Q for u in st["u"]]
+                        self.verdict("generation", st, kind, CR, P0, B0, draws, [v / scale for v in st["t"]],
+                                     [v / scale for v in st["at"]], got, rec, err, side, ndon)
+                        if err:
+                            break
+                    ck.trace()
+            self.ngen += ngen
+        finally:
+            S.random = saved
 
     @staticmethod
     def same(got, rng, t, used, slack):
@@ -436,6 +554,8 @@ def explore(ck, a, corrupt=None, light=False):
         ck.mc(r, name)
         if tag == "strategy":
             sr.run(r)
+        elif tag == "strategy-gen":
+            sr.run_generations(r)
         elif tag == "de":
             dr.run(r)
 
@@ -446,6 +566,7 @@ def explore(ck, a, corrupt=None, light=False):
     if both and not nd:
         raise RuntimeError("no behaviour distinguishes the in-place loop of DE from the frozen generation of DE2")
     ck.extra["de_strategy_cases"] = sr.ncases
+    ck.extra["de_real_generations_with_real_strategies"] = sr.ngen
     ck.extra["de_behaviours"] = dr.n
     ck.extra["de_scripts_where_DE_and_DE2_must_differ"] = nd
     ck.extra["de_witnesses_violated_as_expected"] = sorted(wit)
@@ -476,6 +597,12 @@ def _mutants():
                        "            self.trialSolution[candidate][:] = constraints(self.trialSolution[candidate])\n"
                        "            if strategy and cost(self.trialSolution[candidate]) < self.popEnergy[candidate]:\n"
                        "                self.population[candidate][:] = self.trialSolution[candidate]\n")),
+        ("DE ignores the ScalingFactor given to Step",
+         lambda: patch(DE, "_process_inputs", "self.scale = kwds[word] if word in kwds else scale", "self.scale = scale")),
+        ("DE2 ignores the CrossProbability given to Step",
+         lambda: patch(DE2, "_process_inputs", "self.probability = kwds[word] if word in kwds else probability", "self.probability = probability")),
+        ("DE2 calls the strategy with the wrong candidate index",
+         lambda: patch(DE2, "_Step", "strategy(self, candidate)", "strategy(self, (candidate + 1) % self.nPop)")),
         ("donors sampled with replacement",
          lambda: patch(S, "get_random_candidates", "return random.sample(%s, N)" % pool,
                        "return [random.choice(%s) for _ in range(N)]" % pool)),
@@ -512,6 +639,8 @@ class _Cached(object):
         for tag, name, r, expect in self.items:
             if tag == "strategy":
                 sr.run(r)
+            elif tag == "strategy-gen":
+                sr.run_generations(r)
             elif tag == "de":
                 dr.run(r)
         sr.flush()
@@ -570,6 +699,10 @@ def main():
     ck.outdir = os.path.join(ck.outdir, "de_standalone")
     ck.exhaustive = True
     explore(ck, a)
+    for r in ck.mc_runs:
+        print("  TLC %-40s distinct %8s generated %8s  %6.1fs" % (r["model"], r["distinct_states"], r["states_generated"], r["wall_s"]))
+    for k, v in sorted(ck.extra.items()):
+        print("  %s: %s" % (k, v))
     return ck.finish()
 
 
